@@ -11,6 +11,7 @@ package main
 import (
 	"bytes"
 	"fmt"
+	"os"
 	"strings"
 
 	"github.com/ethereum/go-ethereum/core/rawdb"
@@ -25,6 +26,12 @@ import (
 )
 
 type put struct{ k, v []byte }
+
+var (
+	shrinkMode      = len(os.Args) > 1 && os.Args[1] == "shrink"
+	shrinkFirst     = true
+	shrinkOnlyKnown bool
+)
 
 // recorder is the ethdb.KeyValueWriter handed to Prove: it keeps the Puts in order.
 type recorder struct{ puts []put }
@@ -265,7 +272,7 @@ func run(c Sx) Result {
 				strings.HasPrefix(err.Error(), "proof node 0 ") && strings.HasSuffix(err.Error(), "missing"):
 				// recorded finding: Prove on an empty trie emits no node and VerifyProof(EmptyRootHash, ..)
 				// rejects the empty proof instead of returning (nil, nil)
-				known = append(known, fmt.Sprintf("C08-empty-trie-proof: q%d: empty trie, genuine (empty) proof of absent key %x rejected: %v", qi, key, err))
+				known = []string{"C08-empty-trie-proof: empty trie (root = EmptyRootHash): Prove emits no node and VerifyProof rejects the genuine (empty) proof of an absent key with 'proof node 0 missing' instead of returning (nil, nil)"}
 			case err != nil:
 				fail("q%d: genuine proof of %x rejected: %v", qi, key, err)
 			case present && !bytes.Equal(val, truth):
@@ -321,8 +328,15 @@ func run(c Sx) Result {
 	res.Obs = L(roots, obs)
 	// the recorded finding is reported last, so that a message starts with its stable
 	// prefix only when nothing else failed
-	if len(known) > 2 {
-		known = known[:2]
+	// While shrinking a case that failed for another reason, the recorded finding does not
+	// count as a failure: deleting trie entries must not turn a violation into it.
+	if shrinkMode {
+		if shrinkFirst {
+			shrinkFirst, shrinkOnlyKnown = false, len(fails) == 0
+		}
+		if !shrinkOnlyKnown {
+			known = nil
+		}
 	}
 	fails = append(fails, known...)
 	if len(fails) > 0 {
